@@ -319,7 +319,12 @@ let cmd_oix line =
     | [root] when List.for_all no_include root ->
         Printf.sprintf "[%d,%d]" (List.length (ops_decls (oix_ops w))) (List.length (program_decls root))
     | _ -> "null") in
-  Printf.sprintf "{\"bad\":%s,\"ops\":[%s],\"outline\":[%s],\"decl_counts\":%s}" (if st.oi_bad then "true" else "false")
+  (* the full registration stream (declarations, template arguments, fields) against the AST-only visit of OutlineChildSpec.v *)
+  let child = (match visitc_ws w with
+    | None -> "\"incomplete\""
+    | Some (evs, _) -> if evs = ops_cevs (oix_ops w) then "\"equal\"" else "\"different\"") in
+  Printf.sprintf "{\"bad\":%s,\"decls_wf\":%s,\"children_stream\":%s,\"ops\":[%s],\"outline\":[%s],\"decl_counts\":%s}" (if st.oi_bad then "true" else "false")
+    (if decls_wf w then "true" else "false") child
     (String.concat "," (List.map (fun o -> "\"" ^ op_string o ^ "\"") (oix_ops w)))
     (String.concat "," outl) src
 
